@@ -2,6 +2,34 @@ module verif/harness
 
 go 1.19
 
-require github.com/GuanceCloud/platypus v0.0.0
+require (
+	github.com/GuanceCloud/platypus v0.0.0
+	go.uber.org/zap v1.23.0
+)
+
+require (
+	github.com/DataDog/datadog-agent/pkg/obfuscate v0.39.0 // indirect
+	github.com/DataDog/datadog-go/v5 v5.1.0 // indirect
+	github.com/GuanceCloud/grok v1.1.2 // indirect
+	github.com/antchfx/xmlquery v1.3.12 // indirect
+	github.com/antchfx/xpath v1.2.1 // indirect
+	github.com/araddon/dateparse v0.0.0-20201001162425-8aadafed4dc4 // indirect
+	github.com/cespare/xxhash/v2 v2.1.1 // indirect
+	github.com/dgraph-io/ristretto v0.1.0 // indirect
+	github.com/dustin/go-humanize v1.0.0 // indirect
+	github.com/golang/glog v0.0.0-20160126235308-23def4e6c14b // indirect
+	github.com/golang/groupcache v0.0.0-20200121045136-8c9f03a8e57e // indirect
+	github.com/mssola/user_agent v0.5.3 // indirect
+	github.com/pkg/errors v0.9.1 // indirect
+	github.com/spf13/cast v1.5.0 // indirect
+	github.com/tidwall/gjson v1.14.3 // indirect
+	github.com/tidwall/match v1.1.1 // indirect
+	github.com/tidwall/pretty v1.2.0 // indirect
+	go.uber.org/atomic v1.9.0 // indirect
+	go.uber.org/multierr v1.6.0 // indirect
+	golang.org/x/net v0.0.0-20220127200216-cd36cc0744dd // indirect
+	golang.org/x/sys v0.0.0-20220804214406-8e32c043e418 // indirect
+	golang.org/x/text v0.3.7 // indirect
+)
 
 replace github.com/GuanceCloud/platypus => /repo
